@@ -293,6 +293,7 @@ Proof.
   - destruct Hn as (-> & Hs0 & Hse & HeL & c & -> & ->).
     pose proof (ceilq_spec (e - s) step ltac:(lia) Hstep) as [[Hlo Hhi] [Hn1 Hnc]].
     set (n := ceilq (e - s) step) in *.
+    rewrite (proj2 (Z.eqb_neq step 0)) by lia.
     rewrite (ltb_false n 0), (gtb_false n MaxInt) by lia. cbn [orb].
     assert (0 <= (n - 1) * step) by (apply Z.mul_nonneg_nonneg; lia).
     rewrite (pick_prog l VNull HL).
@@ -320,6 +321,7 @@ Proof.
         replace (step * -1) with (- step) by lia.
         pose proof (ceilq_spec (s - e) (- step) ltac:(lia) ltac:(lia)) as [[Hlo Hhi] [Hn1 Hnc]].
         eexists; split; [reflexivity|]. repeat split; lia. }
+    rewrite (proj2 (Z.eqb_neq step 0)) by lia.
     rewrite (ltb_false n 0), (gtb_false n MaxInt) by lia. cbn [orb].
     assert ((n - 1) * step <= 0) by (apply Z.mul_nonneg_nonpos; lia).
     rewrite (pick_prog l VNull HL).
